@@ -358,7 +358,10 @@ func (st *programState) runSaveStatement(saveStatement parser.SaveStatement) ([]
 	balance := st.getCachedBalance(*account, *asset)
 
 	if amt == nil {
-		balance.Set(big.NewInt(0))
+		// a negative balance is not raised by a save
+		if balance.Sign() == 1 {
+			balance.Set(big.NewInt(0))
+		}
 	} else {
 		// Do not allow negative saves
 		if amt.Cmp(big.NewInt(0)) == -1 {
@@ -368,11 +371,14 @@ func (st *programState) runSaveStatement(saveStatement parser.SaveStatement) ([]
 			}
 		}
 
-		// we decrease the balance by "amt"
-		balance.Sub(balance, amt)
-		// without going under 0
-		if balance.Cmp(big.NewInt(0)) == -1 {
-			balance.Set(big.NewInt(0))
+		// a negative balance is not raised by a save
+		if balance.Sign() == 1 {
+			// we decrease the balance by "amt"
+			balance.Sub(balance, amt)
+			// without going under 0
+			if balance.Cmp(big.NewInt(0)) == -1 {
+				balance.Set(big.NewInt(0))
+			}
 		}
 	}
 
